@@ -2,7 +2,7 @@
 Theorems: coq/Properties/C17.v over Model/Links.v.  Tie: histories {create, re-sync, retarget, prior entry kinds}
 per link kind x link mode through the real binary; readlink / kind of the destination entry after every run vs
 Links.sync_link; source and sentinel snapshots; user xattrs with and without -X."""
-import json, os, shutil
+import subprocess, json, os, shutil
 import vlib, world
 from common import proof_phase, TRUSTED_COMMON
 
@@ -163,6 +163,7 @@ def xattr_histories(sc, r, n):
 
 
 def run(tier, seed, pid=PID):
+    copies_of_referent = 0
     res = vlib.Result(pid, tier, seed)
     pr = proof_phase(res, pid)
     okm, outm = vlib.build_model()
@@ -226,6 +227,14 @@ def run(tier, seed, pid=PID):
                         fh.write(("regular file now, run %d of world %d" % (k, i)).encode() + b"." * k)
                     # (two such files written within one second would have equal sizes and time stamps within the planner's tolerance)
                     os.utime(lpath, ns=((world.T0 + 5000 + 100 * k) * 10**9,) * 2)
+                    # (27a4e7f) ... or the link is replaced by a COPY of what it pointed to (cp -p: same bytes, size and time stamp):
+                    # seen through the link the destination left by the earlier run, the entry looks up to date
+                    prev_t = locals().get("tgt")
+                    if prev_t and r.random() < 0.6:
+                        ref = prev_t if os.path.isabs(prev_t) else os.path.join(os.path.dirname(lpath), prev_t)
+                        if os.path.isfile(ref) and not os.path.islink(ref):
+                            subprocess.run(["cp", "-p", ref, lpath], check=True)
+                            copies_of_referent += 1
                     steps.append("F%d" % cids.setdefault(world.sha(lpath), len(cids) + 1))
                     tgt = None
                 elif ekind == "dir":
@@ -299,6 +308,7 @@ def run(tier, seed, pid=PID):
     for c, o, m in zip(xa_cases, xa_obs, vlib.run_model(xa_cases) if xa_cases else []):
         if o != m:
             diffs.append({"case": c, "impl": o, "model": m})
+    res.cov["kind_changes_to_a_copy_of_the_referent"] = copies_of_referent
     res.cov["xattr_histories"] = dict(xa_stats, histories=len(xa_cases))
     model = vlib.run_model(cases)
     for c, o, m in zip(cases, observed, model):
